@@ -1387,11 +1387,23 @@ pub fn c05_alphabet(it: &Interp, d: usize) -> Vec<Op> {
         return vec![];
     }
     let n = d as u64 + 1;
-    let ends = vec![
+    let mut ends = vec![
         Op::Seq(vec![Op::Abort, Op::Begin]),
         Op::Seq(vec![Op::DropTxn, Op::Begin]),
         Op::Seq(vec![Op::Commit, Op::Begin]),
+        Op::Seq(vec![Op::Commit, Op::Reopen, Op::Begin]),
     ];
+    if !it.poisoned() {
+        // a panic unwinds through the transaction after it allocated pages
+        let mut v = vec![];
+        if !it.slot_open(0) {
+            v.push(Op::Open { slot: 0, name: "t".into(), spec: TU });
+        }
+        v.push(Op::Insert { slot: 0, k: Val::U(6000 + n), v: Val::B(payload(n, 3000)) });
+        v.push(Op::PanicDrop);
+        v.push(Op::Begin);
+        ends.push(Op::Seq(v));
+    }
     if it.poisoned() {
         return ends;
     }
